@@ -42,6 +42,10 @@ pub enum FdtRewrite {
     BothLengths(i64),
     /// the announced Content-MD5 is the one of other bytes
     Md5,
+    /// the announced Content-MD5 is not the digest of the content AND not canonical base64 either:
+    /// 0 padding stripped, 1 URL-safe alphabet, 2 folded with white space, 3 one character replaced,
+    /// 4 plain garbage, 5 empty, 6 hex of other bytes, 7 a longer base64 string
+    Md5Form(u8),
     /// Content-Length and Transfer-Length attributes removed
     DropLengths,
 }
@@ -77,6 +81,42 @@ fn drop_attr(xml: &str, attr: &str) -> String {
     out
 }
 
+fn rewrite_md5_form(xml: &str, form: u8) -> String {
+    let pat = "Content-MD5=\"";
+    let mut out = String::new();
+    let mut rest = xml;
+    while let Some(i) = rest.find(pat) {
+        let (head, tail) = rest.split_at(i + pat.len());
+        out.push_str(head);
+        let end = tail.find('"').unwrap_or(0);
+        let v = &tail[..end];
+        // a digest of OTHER bytes first (the first character rotated inside the alphabet) ...
+        let mut w: Vec<char> = v.chars().collect();
+        if let Some(c) = w.first_mut() {
+            *c = if *c == 'A' { 'B' } else { 'A' };
+        }
+        let wrong: String = w.into_iter().collect();
+        // ... then written in a form a lenient decoder may or may not accept
+        let t = match form {
+            0 => wrong.trim_end_matches('=').to_string(),
+            1 => format!("-_{}", &wrong[2.min(wrong.len())..]),
+            2 => {
+                let h = wrong.len() / 2;
+                format!("{} {}", &wrong[..h], &wrong[h..])
+            }
+            3 => format!("{}*{}", &wrong[..1.min(wrong.len())], &wrong[2.min(wrong.len())..]),
+            4 => "not a digest at all!".to_string(),
+            5 => String::new(),
+            6 => "00112233445566778899aabbccddeeff".to_string(),
+            _ => format!("{}AAAA", wrong.trim_end_matches('=')),
+        };
+        out.push_str(&t);
+        rest = &tail[end..];
+    }
+    out.push_str(rest);
+    out
+}
+
 pub fn rewrite_fdt(xml: &[u8], rw: &FdtRewrite) -> Vec<u8> {
     let s = String::from_utf8_lossy(xml).to_string();
     let r = match rw {
@@ -84,6 +124,7 @@ pub fn rewrite_fdt(xml: &[u8], rw: &FdtRewrite) -> Vec<u8> {
         FdtRewrite::TransferLength(d) => rewrite_attr_num(&s, "Transfer-Length", *d),
         FdtRewrite::BothLengths(d) => rewrite_attr_num(&rewrite_attr_num(&s, "Content-Length", *d), "Transfer-Length", *d),
         FdtRewrite::Md5 => s.replace("Content-MD5=\"", "Content-MD5=\"AAAA"),
+        FdtRewrite::Md5Form(f) => rewrite_md5_form(&s, *f),
         FdtRewrite::DropLengths => drop_attr(&drop_attr(&s, "Content-Length"), "Transfer-Length"),
     };
     r.into_bytes()
@@ -231,8 +272,9 @@ pub fn gen(idx: u64, rng: &mut Rng, _tier: Tier) -> Scn {
         wfaults: wf,
         crash_after: if rng.chance(0.4) { Some(rng.range(0, 400) as u32) } else { None },
         cleanup_every: *rng.pick(&[0u32, 1, 5, 40]),
-        fdt_rewrite: if rng.chance(0.12) {
-            Some(match rng.below(6) {
+        fdt_rewrite: if rng.chance(0.14) {
+            Some(match rng.below(8) {
+                6 | 7 => FdtRewrite::Md5Form(rng.below(8) as u8),
                 0 => FdtRewrite::ContentLength(-(rng.range(1, 40) as i64)),
                 1 => FdtRewrite::ContentLength(rng.range(1, 40) as i64),
                 2 => FdtRewrite::TransferLength(*rng.pick(&[-17i64, -1, 1, 16])),
